@@ -307,6 +307,7 @@ def main(argv=None):
         'inconclusive': st['inconclusive'],
         'solver_queries': st['queries'], 'solver_seconds': round(st['solver_s'], 3),
         'unknown_feasibility_checks': st['unknown_feasibility'],
+        'unknown_answers_retried_with_another_seed': st['unknown_retries'],
         'second_solver_cvc5': {'queries_rechecked': st['cvc5_checked'], 'agree': st['cvc5_agree'], 'unknown': st['cvc5_unknown'],
                                'disagree': st['cvc5_disagree'], 'seconds': round(st['cvc5_s'], 2)},
         'vacuity_witnesses': st['vacuity_witnesses'],
